@@ -397,10 +397,26 @@ pub fn contention_game(rng: &mut Rng, fan: u32, depth: u32) -> T {
     go(rng, fan, depth, 0, 0, 0)
 }
 
+/// a lottery in front of a game: one chance outcome ends the game at once (a pass that draws it
+/// moves no regret at all), the other leads to a matrix game whose equilibrium is not uniform
+pub fn lottery(rng: &mut Rng) -> T {
+    let sub = T::Player(
+        true,
+        0,
+        vec![
+            (0, T::Player(false, 0, vec![(0, T::Term(2.0 + rng.unit())), (1, T::Term(0.0))])),
+            (1, T::Player(false, 0, vec![(0, T::Term(0.0)), (1, T::Term(1.0))])),
+        ],
+    );
+    let w = 1.0 + (rng.below(3) as f64);
+    T::Chance(None, vec![(w, T::Term(rng.unit() - 0.5)), (1.0, sub)])
+}
+
 pub fn adversarial(rng: &mut Rng, i: u64) -> T {
     let (x, y) = (rng.below(60) as u32, rng.below(3) as u32);
     let z = rng.below(3) as u32;
-    match i % 9 {
+    match i % 10 {
+        9 => lottery(rng),
         8 => double_decision(rng),
         0 => deep_chain(rng, 12 + x),
         1 => wide_infoset(rng, 2 + x % 14, 2 + y),
